@@ -39,7 +39,7 @@ def _parse_opts(rest):
     for p in parts[1:]:
         m = re.match(r'subst\s+"(.*)"\s*=>\s*"(.*)"(?:\s+(R\d))?$', p)
         if m:
-            substs.append((m.group(1), m.group(2), m.group(3) or 'R6'))
+            substs.append((m.group(1).replace('\\"', '"'), m.group(2).replace('\\"', '"'), m.group(3) or 'R6'))
             continue
         if '=' in p:
             k, v = p.split('=', 1)
@@ -227,7 +227,10 @@ class Gen:
                         self.do_fn(rest_, block_, ln[:len(ln) - len(ln.lstrip())], as_canary=True)
                     self.pending_canaries = []
                 i += 1
-            elif d.startswith('fn '):
+            elif d.startswith('fn ') or d.startswith('assumed '):
+                is_assumed = d.startswith('assumed ')
+                if is_assumed:
+                    d = 'fn ' + d[8:] + ' | assumed'
                 j = i + 1
                 block = []
                 while lines[j].strip() != '//@end':
@@ -236,7 +239,7 @@ class Gen:
                     if j >= len(lines):
                         raise Undecided('template error: //@fn without //@end at line %d' % (i + 1))
                 self.do_fn(d[3:], block, ln[:len(ln) - len(ln.lstrip())])
-                if self.canary:
+                if self.canary and not is_assumed:
                     if re.search(r'\bimpl\b.*\sfor\s', d) or re.search(r'\btrait\b', d):
                         self.pending_canaries.append((d[3:], block, ''))
                     else:
@@ -333,9 +336,10 @@ class Gen:
 
         # ---- contract + sub-directives
         contract, closures, loops, ghosts, substs, hsubsts = [], {}, {}, [], [], []
-        nobody = False
+        nobody = bool(opts.get('assumed'))
         last, lastk = None, 0
         optional = set()
+        loopvars = {}
         for bl in block:
             t = bl.strip()
             if t.startswith('//@'):
@@ -347,15 +351,18 @@ class Gen:
                     m = re.match(r'closure\??\s+()(\d+)\s*:\s*(.*)$', dd)
                     m = re.match(r'(\d+)\s*:\s*(.*)$', dd.split(None, 1)[1])
                     closures[int(m.group(1))] = m.group(2); last, lastk = 'closure', int(m.group(1)); continue
-                m = re.match(r'loop\s+(\d+)\s*:\s*(.*)$', dd)
+                m = re.match(r'loop\s+(\d+)\s*(?:\[(\w+)\])?\s*:\s*(.*)$', dd)
                 if m:
-                    loops[int(m.group(1))] = m.group(2); last, lastk = 'loop', int(m.group(1)); continue
+                    loops[int(m.group(1))] = m.group(3); last, lastk = 'loop', int(m.group(1))
+                    if m.group(2):
+                        loopvars[int(m.group(1))] = m.group(2)
+                    continue
                 m = re.match(r'ghost\s+(start)()\s*:\s*(.*)$', dd) or re.match(r'ghost\??\s+(before|after)\s+"(.*?)"\s*:\s*(.*)$', dd)
                 if m:
                     ghosts.append((m.group(1), m.group(2), m.group(3), dd.startswith('ghost?'))); last, lastk = 'ghost', 0; continue
                 m = re.match(r'subst\s+"(.*)"\s*=>\s*"(.*)"(?:\s+(R\d))?$', dd)
                 if m:
-                    substs.append((m.group(1), m.group(2), m.group(3) or 'R5')); continue
+                    substs.append((m.group(1).replace('\\"', '"'), m.group(2).replace('\\"', '"'), m.group(3) or 'R5')); continue
                 m = re.match(r'header\s+"(.*)"\s*=>\s*"(.*)"$', dd)
                 if m:
                     hsubsts.append((m.group(1), m.group(2))); continue
@@ -420,6 +427,12 @@ class Gen:
                     raise Undecided('lost anchor: loop %d of fn %s (found %d)' % (k, label, len(lp)))
                 ob = lp[k - 1][1]
                 edits.append((ob, ob, '\n' + inv + '\n', 'R3'))
+                if k in loopvars:
+                    mm = re.search(r'\bin\s+', bmask[lp[k - 1][0]:ob])
+                    if not mm:
+                        raise Undecided('unsupported construct: loop %d of fn %s is not a for-in loop' % (k, label))
+                    q = lp[k - 1][0] + mm.end()
+                    edits.append((q, q, loopvars[k] + ': ', 'R3'))
         # ghost insertions
         for where, anchor, text, opt in ghosts:
             if where == 'start':
@@ -451,7 +464,22 @@ class Gen:
                 # vstd knows these constructor functions only as constructors: still expand
                 pass
             a, b = m.start(2), m.end(2)
-            edits.append((a, b, '|x_eta| %s(x_eta)' % path, 'R1'))
+            last_seg = path.split('::')[-1]
+            if last_seg[0].isupper():
+                # constructor used as a function value
+                if path in ('Some',):
+                    cty = 'Option<_>'
+                elif path in ('Ok', 'Err'):
+                    cty = 'Result<_, _>'
+                elif '::' in path:
+                    cty = path.rsplit('::', 1)[0]
+                else:
+                    cty = path
+                rep = '|x_eta| -> (r_eta: %s) ensures r_eta == %s(x_eta) { %s(x_eta) }' % (cty, path, path)
+            else:
+                rep = ('|x_eta| -> (r_eta: _) requires call_requires(%s, (x_eta,)) ensures call_ensures(%s, (x_eta,), r_eta) { %s(x_eta) }'
+                       % (path, path, path))
+            edits.append((a, b, rep, 'R1'))
         edits.sort(key=lambda e: (e[0], e[1]))
         for e1, e2 in zip(edits, edits[1:]):
             if e2[0] < e1[1]:
@@ -482,6 +510,8 @@ class Gen:
                 pre_txt = pre_txt + '\n' + indent + '  ensures false,'
             ctext = '\n'.join([pre_txt] + post)
         start_line = self.cur_line()
+        if nobody:
+            self.emit(indent + '#[verifier::external_body]')
         self.emit('\n'.join(indent + l.strip() if k else indent + l.strip() for k, l in enumerate(hdr.split('\n'))))
         c_start = self.cur_line()
         if ctext.strip():
@@ -496,7 +526,7 @@ class Gen:
         rec = dict(label=label, props=props, file=sf.rel, src_line=sf.line_of(f['fn']), gen_start=start_line,
                    contract=(c_start, c_end), body=(b_start, b_end), ghost_insertions=ghost_n,
                    rewrites=[(k, a, b) for (k, a, b, _) in [(e[3], btxt[e[0]:e[1]], e[2], 0) for e in edits] if k != 'G'],
-                   name=name, impl=impl_sel)
+                   name=name, impl=impl_sel, assumed=nobody)
         # diff of body vs repo (should be empty except rewrite sites)
         if newbody != btxt and not as_canary:
             d = list(difflib.unified_diff(btxt.split('\n'), newbody.split('\n'), 'repo:' + sf.rel + '::' + label,
